@@ -12,11 +12,14 @@ CHECKS = {
  "C02": ("proof", AI + "; product symbols with quotient rule; post-conditions on path summaries", "fixed*fixed within 1 ulp or NaN (only when raw product exceeds 64 bits); fixed*integer exact or NaN; NaN exit live; no UB", "5 (C02)"),
  "C03": ("proof", AI + "; value-numbered quotient terms; post-conditions on path summaries", "b==0 gives NaN, otherwise truncated quotient with unwrapped dividend, NaN only for |a|>=2^31; fixed/integer exact for every non-zero divisor; no division trap", "5 (C03)"),
  "C04": ("proof", AI + "; region checks on returned forms", "all 8 integral carriers, both directions and the round trip, whole type ranges", "5 (C04)"),
+ "C05": ("other", AI + " with exact rational forms for floating values; shape lemma on value-numbered float expressions", "NaN/range clause for float and double, fixed->double exact, fixed->float correctly rounded by shape, fixed->double->fixed identity (decided). NOT decided: half-ulp / ties-away rounding of arbitrary floating inputs", "5 (C05), 6"),
  "C06": ("proof", AI + "; predicate refinement both ways", "six comparisons, sentinels, isnan, unary minus, abs over [-NaN,NaN]", "5 (C06)"),
  "C07": ("proof", AI + "; trap-site reachability with alarm-driven value partitioning", "every sanitizer trap site and table load reachable from any public entry point is unreachable for all inputs of the precondition box, per configuration", "3, 5 (C07)"),
  "C08": ("other", "static analysis: clang-query AST rules (constexpr closure, false const/pure attributes) over the instantiated driver TU; " + AI + "; summary equivalence of the -std=c++17 and -std=c++20 builds", "constexpr closure in K17A/K20; c++17 vs c++20 summary equivalence of every wrapper; fmuladd contraction safety; no UB (optimisation-level independence). NOT decided: the two sqrt algorithms differ by <= 1 ulp; code generators trusted. 10 recorded findings (lookup-table family not constexpr)", "5 (C08), 6, 7"),
  "C09": ("other", AI + "; range-reduction structure: congruence of the reduced argument, window size, abstract re-execution on the reduced argument", "exact periodicity of sin and cos on |x| < 2^46 (decided). NOT decided: accuracy bound, |result| <= 1", "5 (C09), 6"),
  "C10": ("other", AI + "; summary equivalence for oddness; range-reduction structure for the period; pole paths", "tan odd for every finite x, period phi for 0 <= x < 2^62, NaN exactly at the pole (decided). NOT decided: 2.5 ulp (1+tan^2) accuracy", "5 (C10), 6"),
+ "C11": ("other", AI + "; summary equivalence (oddness); per-quadrant boxes with value partitioning of the quotient", "atan odd; atan2 axis values, (0,0) NaN, quadrant signs (decided). NOT decided: accuracy bounds, |atan| <= pi/2, near-monotonicity", "5 (C11), 6"),
+ "C12": ("other", AI + "; region checks on in-program relations", "NaN exactly for |x| > 1 (all builds); asin odd and acos within 1 ulp of pi/2 - asin (std::sqrt builds). NOT decided: backward/forward error bound, monotonicity, the two relations under the abacus build", "5 (C12), 6"),
  "C13": ("other", AI + "; loop unrolling with control-aware joins; shape lemma on the value-numbered float expression", "NaN below 0, 0 at 0, result in [0,2^16] on the domain for both algorithms (decided); < 1 ulp, monotone, exact squares for the std::sqrt algorithm by shape lemma. NOT decided: those three clauses for the abacus loop", "5 (C13), 6"),
  "C14": ("other", AI + "; summary equivalence (symmetry); per-instruction unsigned-wrap tracking", "symmetry (std::sqrt builds), never NaN/negative, no intermediate wrap in hypot's own arithmetic (one recorded finding: left-shift branch). NOT decided: 2 ulp / 1.5e-4 accuracy; symmetry under the abacus build", "5 (C14), 6, 7"),
  "C15": ("proof", AI + "; region checks and summary equivalence", "floor/ceil bracket, integrality, fixed points, ceil == -floor(-x) on the whole stated domain", "5 (C15)"),
